@@ -20,6 +20,12 @@ configurations (linear solvers; equation solvers with skip_non_linear_solver_com
 all-min / all-max / zero-one / seeded mixes incl. near-boundary values, with gas budgets: entry cost (-1, +0, +1, +100,
 +3000), 0, the exact consumption of the large run (-1, +0, +1) and entry cost + 10^7.
 
+Accepted mutants: for every compiled program of at most 400 statements, seeded single-point mutants (harness/h14's
+mutation engine; function table left as the compiler emitted it, because the runner places the gas counter and the
+builtins by the compiler's convention) that the real pipeline accepts are run as well (linear configuration, 3
+argument vectors, 2 budgets) under the same three oracles; a failing mutant's program is written to
+<out_dir>/mutant_<hash>.json and named in the failure's `what`.
+
 Oracles (impl-level, written from the property texts):
   C02  casm_run::run_function returns Err (what SierraCasmRunner turns into RunnerError::CairoRunError), or anything
        panics / hangs -> failure.  Sierra-level panic values and out-of-gas panics are fine;
